@@ -1,6 +1,6 @@
 ------------------------------- MODULE MC_C17 -------------------------------
 EXTENDS Faidx, Json
 Emit == (last.op = "open" /\ gen = 0) =>
-          PrintT(ToJson([recs |-> recs, finalnl |-> FinalNL, blankend |-> BlankEnd, flen |-> Len(File(recs)),
+          PrintT(ToJson([recs |-> recs, finalnl |-> FinalNL, blankend |-> BlankEnd, crlf |-> CRLF, flen |-> Len(File(recs)),
                          index |-> [r \in DOMAIN recs |-> IndexRow(recs, r)]]))
 ==============================================================================
